@@ -9,4 +9,15 @@
 #define TAO_PEGTL_NAMESPACE tao::pegtl
 #endif
 
+#if defined( TAO_PEGTL_VERIF )
+// Verification hooks: observation points for out-of-window reads and cursor moves.
+// A harness defines the macros before including the library; by default they do nothing.
+#if !defined( TAO_PEGTL_VERIF_PEEK )
+#define TAO_PEGTL_VERIF_PEEK( current, offset, end ) ( (void)0 )
+#endif
+#if !defined( TAO_PEGTL_VERIF_BUMP )
+#define TAO_PEGTL_VERIF_BUMP( current, count, end ) ( (void)0 )
+#endif
+#endif
+
 #endif
